@@ -8,7 +8,7 @@
    only makes moves along spec edges (consistent_b accepts).
    Proofs: Proofs/SimpleExecC10.v, SimpleExecChk.v. *)
 From EoNV Require Import Prelude Samp Graph ListDict ListDictP Gillespie KldP GillespieInv SampP Simple SimpleP
-  SimpleExecS SimpleExec SimpleExecLog SimpleExecTop SimpleExecChk SimpleExecC10.
+  SimpleExecS SimpleExec SimpleExecLog SimpleExecTop SimpleExecChk SimpleExecC10 SimpleExecFuel SimpleExecFlag SimpleExecC10b.
 From EoNV Require Import Investigation InvestigationP.
 From EoNV Require Complex ComplexP ComplexExec ComplexExecChk ComplexExecC10.
 
@@ -24,6 +24,41 @@ Theorem C10gen_summary_equals_arrays :
        summary (mkInv (gnodes g) (fd_hist fd) None (Some rstat)) None = Ok (so_rows out) /\
        consistent_b (mkInv (gnodes g) (fd_hist fd) None (Some rstat)) (so_rows out) tmin (moves_of spont induced) = true).
 Proof. exact simple_summary_equals_arrays. Qed.
+
+(* ---- the premise of C10, proved: return_full_data does not influence the run.  For EVERY draw
+   script the plain run and the full-data run make the same calls to the random source; when both
+   return their rows are equal; the only possible difference is the constructor of the full-data
+   object failing after the simulation (return_statuses missing a status) ---- *)
+Theorem C10gen_both_modes_consume_the_same_draws :
+  forall g ic rstat tmin tmax sortable spont induced fuel ds,
+  let r1 := exec (simple g sortable spont induced ic rstat tmin tmax false fuel) ds [] in
+  let r2 := exec (simple g sortable spont induced ic rstat tmin tmax true fuel) ds [] in
+  snd r1 = snd r2 /\
+  match fst r1, fst r2 with
+  | Ok o1, Ok o2 => so_rows o1 = so_rows o2 /\ so_full o1 = None /\ so_full o2 <> None
+  | Ok o1, Err e => e = KeyErr \/ e = IndexErr
+  | Err e1, Err e2 => e1 = e2
+  | Err _, Ok _ => False
+  end.
+Proof. exact simple_flag_independent. Qed.
+
+(* ---- C10 as stated: on the same draw script, the arrays returned WITHOUT return_full_data are
+   summary() of the node histories returned WITH it (return_statuses covering, no two events at
+   one instant), and consistent_b accepts the pair (histories of the full run, arrays of the plain run) ---- *)
+Theorem C10gen_plain_arrays_are_summary_of_full_run :
+  forall g (Hg : wfg2 g) ic rstat tmin tmax sortable spont induced fuel ds o1 tr1 o2 tr2,
+  Forall (sp_tr_ok g) spont -> Forall (in_tr_ok g) induced ->
+  exec (simple g sortable spont induced ic rstat tmin tmax false fuel) ds [] = (Ok o1, tr1) ->
+  exec (simple g sortable spont induced ic rstat tmin tmax true fuel) ds [] = (Ok o2, tr2) ->
+  tr1 = tr2 /\ so_rows o1 = so_rows o2 /\ so_full o1 = None /\
+  exists (evs : list gev) (fd : fulldata),
+    so_full o2 = Some fd /\
+    fd_hist fd = iv_hist (log_inv (gnodes g) rstat tmin ic (map ev3 evs)) /\
+    so_rows o1 = log_arrays (gnodes g) rstat tmin ic (map ev3 evs) /\
+    (covered g ic rstat spont induced -> increasing tmin (map ev3 evs) = true ->
+       summary (mkInv (gnodes g) (fd_hist fd) None (Some rstat)) None = Ok (so_rows o1) /\
+       consistent_b (mkInv (gnodes g) (fd_hist fd) None (Some rstat)) (so_rows o1) tmin (moves_of spont induced) = true).
+Proof. exact simple_plain_arrays_are_summary_of_full_run. Qed.
 
 (* in BOTH return modes the rows are the running counts of the run's log (the plain mode
    returns them; the witness checker [gen_rows_okb] accepts them) *)
@@ -109,6 +144,8 @@ Proof.
 Qed.
 
 Print Assumptions C10gen_summary_equals_arrays.
+Print Assumptions C10gen_both_modes_consume_the_same_draws.
+Print Assumptions C10gen_plain_arrays_are_summary_of_full_run.
 Print Assumptions C10gen_rows_are_running_counts_in_both_modes.
 Print Assumptions C10gen_rows_checker_sound.
 Print Assumptions C10gen_histories_make_spec_moves.
